@@ -30,6 +30,13 @@ def loops_in_order(fn: ast.FunctionDef):
     return {id(n): k + 1 for k, n in enumerate(found)}
 
 
+def comps_in_order(fn: ast.FunctionDef):
+    """comprehension / generator-expression nodes of fn in source order -> ordinal from 1"""
+    found = [n for n in ast.walk(fn) if isinstance(n, (ast.ListComp, ast.GeneratorExp))]
+    found.sort(key=lambda n: (n.lineno, n.col_offset))
+    return {id(n): k + 1 for k, n in enumerate(found)}
+
+
 def assigned_names(stmts):
     names = set()
     for s in stmts:
